@@ -8,7 +8,8 @@ LEVEL = "model_checking"
 
 GOOD = {"UnlockAt": "persisted", "RefRelease": "persisted", "SeqAtomic": True, "DryRunAllocates": False,
         "DryRunPublishes": False, "RevertEventSwapped": False, "MetaSourceLocked": True,
-        "AckWaitsPersist": True, "IkSpan": "run", "RevertGuard": True}
+        "AckWaitsPersist": True, "IkSpan": "run", "RevertGuard": True, "MetaLogsCarryIk": True,
+        "CancelAbortsWait": False}
 
 SPEC_INVS = ("TypeOK LocksConsistent C02_SerialFunds C05_IdsGapFree C05_TxIdsSequential C06_AckPersisted "
              "C06_RejectedLeavesNothing C06_OneEntryPerRequest C07_IkOnce C10_RevertOnce C11_RefOnce C14_DryRun "
@@ -17,17 +18,18 @@ SPEC_INVS = ("TypeOK LocksConsistent C02_SerialFunds C05_IdsGapFree C05_TxIdsSeq
 # per property: palettes (name, MaxCrash), negative designs (switch, bad value, palette, MaxCrash), deciding invariants
 PROPS = {
     "C02": dict(palettes=[("PalFunds", 0)],
-                negatives=[("UnlockAt", "early", "PalFunds", 0), ("MetaSourceLocked", False, "PalFunds", 0)],
+                negatives=[("UnlockAt", "early", "PalFunds", 0), ("MetaSourceLocked", False, "PalFunds", 0),
+                           ("CancelAbortsWait", True, "PalFunds", 0)],
                 invs=["C02_SerialFunds"]),
-    "C05": dict(palettes=[("PalKinds", 1), ("PalDry", 0)],
+    "C05": dict(palettes=[("PalKinds", 0), ("PalRestart", 1), ("PalDry", 0)],
                 negatives=[("SeqAtomic", False, "PalKinds", 0), ("DryRunAllocates", True, "PalDry", 0)],
                 invs=["C05_IdsGapFree", "C05_TxIdsSequential", "C05_HashChain"]),
-    "C06": dict(palettes=[("PalKinds", 1), ("PalRef", 0)],
-                negatives=[("AckWaitsPersist", False, "PalKinds", 1)],
+    "C06": dict(palettes=[("PalRestart", 1), ("PalRef", 0), ("PalIk", 0)],
+                negatives=[("AckWaitsPersist", False, "PalRestart", 1), ("CancelAbortsWait", True, "PalRestart", 0)],
                 invs=["C06_AckPersisted", "C06_RejectedLeavesNothing", "C06_OneEntryPerRequest"]),
     "C07": dict(palettes=[("PalIk", 1)],
-                negatives=[("IkSpan", "exec", "PalIk", 0)],
-                invs=["C07_IkOnce"]),
+                negatives=[("IkSpan", "exec", "PalIk", 0), ("MetaLogsCarryIk", False, "PalIk", 0)],
+                invs=["C07_IkOnce", "C06_AckPersisted"]),
     "C10": dict(palettes=[("PalRevert", 0)],
                 negatives=[("RevertGuard", False, "PalRevert", 0)],
                 invs=["C10_RevertOnce", "C02_SerialFunds"]),
@@ -58,7 +60,7 @@ def tla(v):
 def cfg(spec, palette, nprocs, design, invs, maxcrash, extra=""):
     return "SPECIFICATION %s\nCONSTANTS\n  Procs = {%s}\n  Palette <- %s\n%s  MaxCrash = %d\n%s%s\nCHECK_DEADLOCK FALSE\n" % (
         spec, ", ".join('"p%d"' % i for i in range(1, nprocs + 1)), palette,
-        "".join("  %s = %s\n" % (k, tla(v)) for k, v in design.items()), maxcrash, extra,
+        "".join("  %s = %s\n" % (k, tla(v)) for k, v in design.items()) + "  MaxCancel = 1\n", maxcrash, extra,
         ("INVARIANTS " + " ".join(invs)) if invs else "")
 
 
@@ -68,7 +70,7 @@ def obs_cfg(trace, invs):
 
 
 def trace_cfg(trace, design):
-    return "SPECIFICATION TraceSpec\nCONSTANTS\n  Procs = {\"p1\", \"p2\", \"p3\"}\n  Palette <- PalFunds\n%s  MaxCrash = 9\n  TraceFile = \"%s\"\nCHECK_DEADLOCK TRUE\n" % (
+    return "SPECIFICATION TraceSpec\nCONSTANTS\n  Procs = {\"p1\", \"p2\", \"p3\"}\n  Palette <- PalFunds\n%s  MaxCancel = 9\n  MaxCrash = 9\n  TraceFile = \"%s\"\nCHECK_DEADLOCK TRUE\n" % (
         "".join("  %s = %s\n" % (k, tla(v)) for k, v in design.items()), trace)
 
 
@@ -92,8 +94,19 @@ def signature(inv, excerpt):
     detail = ""
     if ev == "publish":
         by = last.get("by")
-        dry = excerpt[0]["req"].get(by, {}).get("dry")
+        reqs = excerpt[0]["req"]
+        me = reqs.get(by, {})
+        dry = me.get("dry")
         detail = ":%s%s" % (last.get("type"), ":dry" if dry else "")
+        # the event of a request answered through its idempotency key from an entry that another
+        # request, with other arguments, produced
+        if me.get("ik"):
+            for l in excerpt:
+                for lg in (l.get("logs") or []) if l.get("ev") == "persist" else []:
+                    other = reqs.get(lg.get("by"), {})
+                    if lg.get("ik") == me["ik"] and lg.get("by") != by and \
+                            any(other.get(k) != me.get(k) for k in ("kind", "target", "tacct", "mval", "postings")):
+                        detail += ":ik-replay-other-args"
     elif ev == "persist":
         detail = ":" + "+".join(sorted({l.get("kind", "?") for l in last.get("logs", [])}))
         req = excerpt[0]["req"]
@@ -197,6 +210,15 @@ def run_prop(ctx, prop):
         extra = '  OutDir = "%s"\n  MaxLen = 200\n' % sub
         gens.append((k, sub, pool.submit(ctx.tlc, "EngineGen", cfg("GenSpec", pal, 3, dsg, [], crash, extra), "gen-%d" % k, workers=1,
                                          simulate="num=%d" % num, depth=220, timeout=1200)))
+    # sequential histories (one request after the other, every order) under the design as coded
+    k = len(jobs)
+    for pal, crash in P["palettes"]:
+        for cr in sorted({0, crash}):
+            sub = ctx.mkdir("gen", "g%d" % k)
+            extra = '  OutDir = "%s"\n  MaxLen = 200\n' % sub
+            gens.append((k, sub, pool.submit(ctx.tlc, "EngineGen", cfg("SeqSpec", pal, 3, coded, [], cr, extra), "seq-%d" % k, workers=1,
+                                             simulate="num=%d" % (num * 2), depth=220, timeout=1200)))
+            k += 1
     states = trans = 0
     for pal, n, fut in strict:
         r = fut.result()
@@ -231,7 +253,11 @@ def run_prop(ctx, prop):
             pr.kill()
             raise Infra("replay harness timed out")
         if rc != 0:
-            raise Infra("replay harness failed rc=%d: %s" % (rc, open(ctx.path("harness-0.err")).read()[-2000:]))
+            errs = ""
+            for sh2 in range(shards):
+                t = open(ctx.path("harness-%d.err" % sh2)).read()
+                errs += "".join(l + "\n" for l in t.splitlines() if l.startswith(("HARNESS-ERROR", "fatal error", "panic:", "replay")))
+            raise Infra("replay harness failed rc=%d: %s" % (rc, errs[-2000:]))
     stats = {"behaviours": 0, "steps": 0, "skipped_steps": 0, "stuck": 0, "diverged_behaviours": 0, "crashes": 0,
              "persists": 0, "free_runs": 0, "free_requests": 0, "points_reached": {}, "samples": []}
     trace = ctx.path("trace.ndjson")
